@@ -257,18 +257,40 @@ def engineFails (G : Engine) (repaired : Bool) (n : ENode) : Option Fail :=
 
 /-! ### What the two parsers agree on (facts about `PcodeParser`, transmitted and checked per case) -/
 
-/-- The engine-side node class and the analyzer-side parse of the same line fit together. -/
+def interpNames : List String := ["Base", "Increment run counter", "Run counter", "Wait"]
+
+/-- The engine-side node class and the analyzer-side parse of the same line fit together, and the node classes
+    carry the names the parser / the registry give them. -/
 def parseAgree (G : Engine) (n : ENode) : Bool :=
   match n.ekind with
   | .uodCommand => n.a.kind == .command true && n.a.instrName != "" && (uodCmd G n.a.instrName).isSome
   | .errorInstr =>
     n.a.kind == .command true && (uodCmd G (cmdName n.a)).isNone && !G.keywords.contains (cmdName n.a)
-  | .engineCommand => n.a.kind == .command false && n.a.instrName != ""
-  | .interpCommand => n.a.kind == .command false && n.a.instrName != ""
+  | .engineCommand =>
+    n.a.kind == .command false && G.keywords.contains n.a.instrName && n.a.instrName != "Base" &&
+      (G.specs.lookup n.a.instrName).isSome
+  | .interpCommand =>
+    n.a.kind == .command false && G.keywords.contains n.a.instrName && interpNames.contains n.a.instrName &&
+      (G.specs.lookup n.a.instrName).isSome
   | .watch => n.a.kind == .watch
   | .alarm => n.a.kind == .alarm
   | .simulate => n.a.kind == .simulate
   | .simulateOff => n.a.kind == .simulateOff
   | .other => n.a.kind == .other
+
+/-! ### Hypotheses of C20 that are facts about the UOD, the parser, Python `re` and `int` -/
+
+/-- uod command names are unique and are not instruction keywords; every published system command is a keyword -/
+structure NamesOk (G : Engine) : Prop where
+  unique : ∀ c ∈ G.uodCmds, ∀ c' ∈ G.uodCmds, c'.name = c.name → c' = c
+  notKeyword : ∀ c ∈ G.uodCmds, G.keywords.contains c.name = false
+  examplesKeyword : ∀ n ∈ G.examples, G.keywords.contains n = true
+
+/-- the patterns of the internal commands are anchored (`re.search` ⇒ `re.match`), the published `Base` pattern
+    matches listed units only, what `REGEX_INT` accepts `int()` accepts -/
+structure OraclesOk (G : Engine) : Prop where
+  anchored : ∀ n r a, G.specs.lookup n = some r → G.search r a = true → G.matchP r a = true
+  baseSound : ∀ a, G.search (baseRegex G.baseUnits) a = true → G.baseUnits.contains a = true
+  intSound : ∀ r a, G.specs.lookup "Run counter" = some r → G.search r a = true → G.intOk a = true
 
 end OPM.Accept
